@@ -824,6 +824,27 @@ def _r8(run, mods):
     else:
         run.fail('C06-R8', 'cherab.openadas.repository.utility|encode_transition|form', mi.relpath, fn.lineno,
                  'encode_transition returns %s: transition levels are not compared by their lower-cased string form, upper then lower' % ret.txt())
+    # valid_charge: the updaters reject a charge above the atomic number (and nothing else): charge <= element.atomic_number
+    vc = mi.functions.get('valid_charge')
+    if vc is not None:
+        run.subject('C06-R8')
+        try:
+            vc = flatten(vc, module_lookup(mi))
+        except Exception:
+            pass
+        el, ch = [a.arg for a in vc.args.args[:2]]
+        rets = [r for r in ast.walk(vc) if isinstance(r, ast.Return) and r.value is not None]
+        txt = norm(rets[0].value).replace(' ', '') if len(rets) == 1 else None
+        good = ('%s<=%s.atomic_number' % (ch, el), '%s.atomic_number>=%s' % (el, ch), 'not%s>%s.atomic_number' % (ch, el),
+                '%s<%s.atomic_number+1' % (ch, el))
+        if txt in good:
+            run.ok('C06-R8', 'valid_charge', txt)
+        elif txt is not None and isinstance(rets[0].value, ast.Compare) and 'atomic_number' in txt:
+            run.fail('C06-R8', 'cherab.openadas.repository.utility|valid_charge|form', mi.relpath, vc.lineno,
+                     'valid_charge returns %s; documented: charge <= atomic number (the bare nucleus is a valid state, anything above is not): '
+                     'an update is rejected, or stored, for the wrong charge states' % norm(rets[0].value))
+        else:
+            run.undecided('C06-R8', 'valid_charge', 'form %s' % txt)
 
 
 _A = REPO_DIR + 'atomic.py'
